@@ -3,13 +3,20 @@
 //! stdin: cases in the line protocol of `lean/SteelVerif/C14/Driver.lean`
 //!   case <id> | module <k> | def <n> | prov <n> | cprov <n> | req <spec> | view <n>… | end
 //!   request | req <spec> | def <n> | mode ok|syntax|freeid|runtime | obs <n>… | end | poke | endcase
-//!   <spec> ::= <k> | p:<prefix>:<spec> | o:<id>[=<to>],…:<spec>
+//!   <spec> ::= <k>[~<spelling>] | p:<prefix>:<spec> | o:<id>[=<to>],…:<spec>
+//!   inside a module: `dir <sub/dir>` puts the module's file into that sub-directory of the case.
+//!   <spelling> selects how the (relative) path in the require form is written: 0 shortest, 1 with a
+//!   leading "./", 2 up to the case root, through "zz/.." and down again, 3 through a symbolic link
+//!   (`ln_<dir>` -> dir, `lnroot` -> .).  All spellings name the same file: the module's identity is
+//!   its canonical path.
 //! argv[1] (optional): directory under which the module files are written (default
 //!   /verif/.build/C14/mods); every case gets its own sub-directory `<id>` holding `m<k>.scm`.
 //!
 //! For every case ONE engine is created and the requests are evaluated on it in order.  Every define of
 //! module k is bound to the tag `'(mk . name)` (names starting with f/g: a one-argument function
-//! returning the tag), top-level defines of request i to `'(topi . name)`.  Each module body calls the
+//! returning the tag; names h2..h6: a function of that many parameters whose first parameter is a
+//! callback it applies to 1, contract `(->/c (->/c int? int?) int? … any/c)` when provided through
+//! contract/out), top-level defines of request i to `'(topi . name)`.  Each module body calls the
 //! host function `(c14-bump! k)` and registers a probe closure with `(c14-probe! k (lambda () …))` that
 //! reports, through `(c14-report! k "name" value)`, what each of its `view` names is bound to.
 //! stdout, per request (same canonical form as the driver):
@@ -39,14 +46,20 @@ thread_local! {
 
 #[derive(Clone, Debug)]
 enum Spec {
-    Path(usize),
+    Path(usize, u8),
     Prefix(String, Box<Spec>),
     Only(Vec<(String, Option<String>)>, Box<Spec>),
 }
 
 fn parse_spec(fields: &[&str]) -> Option<Spec> {
     match fields {
-        [n] => n.parse().ok().map(Spec::Path),
+        [n] => {
+            let (k, style) = match n.split_once('~') {
+                Some((k, st)) => (k, st.parse().ok()?),
+                None => (*n, 0u8),
+            };
+            k.parse().ok().map(|k| Spec::Path(k, style))
+        }
         ["p", pfx, rest @ ..] => Some(Spec::Prefix(pfx.to_string(), Box::new(parse_spec(rest)?))),
         ["o", ids, rest @ ..] => {
             let ids = ids
@@ -63,12 +76,43 @@ fn parse_spec(fields: &[&str]) -> Option<Spec> {
     }
 }
 
-fn spec_sexp(s: &Spec) -> String {
+fn comps(d: &str) -> Vec<&str> {
+    d.split('/').filter(|c| !c.is_empty()).collect()
+}
+
+/// The string written in `(require "…")` by a file in directory `from` for module `k` in directory `to`.
+fn rel_path(from: &str, to: &str, k: usize, style: u8) -> String {
+    let (f, t) = (comps(from), comps(to));
+    let file = format!("m{k}.scm");
+    let up_all = "../".repeat(f.len());
+    let down_all: String = t.iter().map(|c| format!("{c}/")).collect();
+    match style {
+        2 => format!("{up_all}zz/../{down_all}{file}"),
+        3 => {
+            if t.is_empty() {
+                format!("{up_all}lnroot/{file}")
+            } else {
+                format!("{up_all}ln_{}/{file}", t.join("_"))
+            }
+        }
+        _ => {
+            let c = f.iter().zip(t.iter()).take_while(|(a, b)| a == b).count();
+            let up = "../".repeat(f.len() - c);
+            let down: String = t[c..].iter().map(|x| format!("{x}/")).collect();
+            format!("{}{up}{down}{file}", if style == 1 { "./" } else { "" })
+        }
+    }
+}
+
+fn spec_sexp(s: &Spec, from: &str, dirs: &[String]) -> String {
     match s {
-        Spec::Path(k) => format!("\"m{k}.scm\""),
-        Spec::Prefix(p, s) => format!("(prefix-in {} {})", p, spec_sexp(s)),
+        Spec::Path(k, style) => {
+            let to = dirs.get(*k).map(|d| d.as_str()).unwrap_or("");
+            format!("\"{}\"", rel_path(from, to, *k, *style))
+        }
+        Spec::Prefix(p, s) => format!("(prefix-in {} {})", p, spec_sexp(s, from, dirs)),
         Spec::Only(ids, s) => {
-            let mut out = format!("(only-in {}", spec_sexp(s));
+            let mut out = format!("(only-in {}", spec_sexp(s, from, dirs));
             for (a, b) in ids {
                 match b {
                     Some(b) => out.push_str(&format!(" ({a} {b})")),
@@ -83,6 +127,7 @@ fn spec_sexp(s: &Spec) -> String {
 
 #[derive(Default, Clone, Debug)]
 struct Module {
+    dir: String,
     defs: Vec<String>,
     provs: Vec<(String, bool)>,
     reqs: Vec<Spec>,
@@ -109,17 +154,52 @@ fn is_fn(name: &str) -> bool {
     name.starts_with('f') || name.starts_with('g')
 }
 
+/// `h2` .. `h6` (possibly behind prefixes ending in `.` or `-`, possibly with an alias suffix, e.g.
+/// `a.h4x`): higher-order function of that many parameters.  (`function-arity` cannot be used: it does
+/// not report the arity of a contracted function reliably.)
+fn hof_arity(name: &str) -> Option<usize> {
+    let base = name.rsplit(|c| c == '.' || c == '-').next().unwrap_or(name);
+    let b = base.as_bytes();
+    if b.len() >= 2 && b[0] == b'h' && (b'2'..=b'6').contains(&b[1]) {
+        Some((b[1] - b'0') as usize)
+    } else {
+        None
+    }
+}
+
 fn define_text(tag: &str, name: &str) -> String {
-    if is_fn(name) {
+    if let Some(n) = hof_arity(name) {
+        let params: Vec<String> = (1..n).map(|i| format!("a{i}")).collect();
+        format!("(define ({name} cb {}) (cb 1) '({tag} . {name}))", params.join(" "))
+    } else if is_fn(name) {
         format!("(define ({name} n) '({tag} . {name}))")
     } else {
         format!("(define {name} '({tag} . {name}))")
     }
 }
 
-/// The expression that reveals what `name` is bound to (a tag, or a function: its tag and whether a
-/// call with a string argument is rejected by a contract).
+fn contract_text(name: &str) -> String {
+    match hof_arity(name) {
+        Some(n) => format!("(->/c (->/c int? int?) {}any/c)", "int? ".repeat(n - 1)),
+        None => "(->/c int? any/c)".to_string(),
+    }
+}
+
+/// The expression that reveals what `name` is bound to: a tag; a one-parameter function (its tag and
+/// whether a call with a string argument is rejected by a contract); or, for the names h2..h6, a
+/// function of that many parameters (its tag for a good call, and whether a callback that returns a
+/// string and a string in the last position are rejected).
 fn obs_expr(name: &str) -> String {
+    if let Some(n) = hof_arity(name) {
+        let ints: Vec<String> = (1..n).map(|i| i.to_string()).collect();
+        let mut bad = ints.clone();
+        *bad.last_mut().unwrap() = "\"s\"".to_string();
+        return format!(
+            "(let ((c14-v {name})) (if (function? c14-v) (list 'hof (with-handler (lambda (e) 'cerr) (c14-v (lambda (x) x) {good})) (with-handler (lambda (e) 'cerr) (c14-v (lambda (x) \"s\") {good})) (with-handler (lambda (e) 'cerr) (c14-v (lambda (x) x) {bad}))) c14-v))",
+            good = ints.join(" "),
+            bad = bad.join(" ")
+        );
+    }
     format!(
         "(let ((c14-v {name})) (if (function? c14-v) (list 'func (c14-v 0) (with-handler (lambda (e) 'cerr) (c14-v \"s\"))) c14-v))"
     )
@@ -137,6 +217,24 @@ fn canon(text: &str) -> String {
         Some(format!("{a}.{b}"))
     }
     let t = text.trim();
+    if let Some(rest) = t.strip_prefix("(hof ") {
+        // (hof <good> <bad callback> <bad last argument>)
+        if let Some(close) = rest.find(')') {
+            if let Some(tg) = tag(&rest[..=close]) {
+                let tail = rest[close + 1..].trim();
+                let same = format!("{} {})", &rest[..=close], &rest[..=close]);
+                let kind = if tail == "cerr cerr)" {
+                    "c".to_string()
+                } else if tail == same {
+                    "p".to_string()
+                } else {
+                    format!("?{}", tail.replace(' ', "_"))
+                };
+                return format!("fn:{tg}:{kind}");
+            }
+        }
+        return format!("val:{}", t.replace(' ', "_"));
+    }
     if let Some(rest) = t.strip_prefix("(func ") {
         if let Some(close) = rest.find(')') {
             if let Some(tg) = tag(&rest[..=close]) {
@@ -164,16 +262,16 @@ fn err_kind(e: &steel::SteelErr) -> String {
     }
 }
 
-fn module_text(k: usize, m: &Module) -> String {
+fn module_text(k: usize, m: &Module, dirs: &[String]) -> String {
     let mut s = String::new();
     for r in &m.reqs {
-        s.push_str(&format!("(require {})\n", spec_sexp(r)));
+        s.push_str(&format!("(require {})\n", spec_sexp(r, &m.dir, dirs)));
     }
     if !m.provs.is_empty() {
         s.push_str("(provide");
         for (n, c) in &m.provs {
             if *c {
-                s.push_str(&format!(" (contract/out {n} (->/c int? any/c))"));
+                s.push_str(&format!(" (contract/out {n} {})", contract_text(n)));
             } else {
                 s.push_str(&format!(" {n}"));
             }
@@ -193,10 +291,10 @@ fn module_text(k: usize, m: &Module) -> String {
     s
 }
 
-fn request_text(i: usize, r: &Request) -> String {
+fn request_text(i: usize, r: &Request, dirs: &[String]) -> String {
     let mut s = String::new();
     for q in &r.reqs {
-        s.push_str(&format!("(require {})\n", spec_sexp(q)));
+        s.push_str(&format!("(require {})\n", spec_sexp(q, "", dirs)));
     }
     for d in &r.defs {
         s.push_str(&define_text(&format!("top{i}"), d));
@@ -215,8 +313,18 @@ fn run_case(c: &Case, root: &PathBuf, out: &mut Vec<String>) {
     let dir = root.join(&c.id);
     let _ = std::fs::remove_dir_all(&dir);
     std::fs::create_dir_all(&dir).unwrap();
+    let dirs: Vec<String> = c.mods.iter().map(|m| m.dir.clone()).collect();
+    // a directory to detour through, and a symbolic link to every directory that holds a module
+    std::fs::create_dir_all(dir.join("zz")).unwrap();
+    let _ = std::os::unix::fs::symlink(".", dir.join("lnroot"));
     for (k, m) in c.mods.iter().enumerate() {
-        std::fs::write(dir.join(format!("m{k}.scm")), module_text(k, m)).unwrap();
+        let sub = comps(&m.dir);
+        let mdir = sub.iter().fold(dir.clone(), |d, c| d.join(c));
+        std::fs::create_dir_all(&mdir).unwrap();
+        if !sub.is_empty() {
+            let _ = std::os::unix::fs::symlink(sub.join("/"), dir.join(format!("ln_{}", sub.join("_"))));
+        }
+        std::fs::write(mdir.join(format!("m{k}.scm")), module_text(k, m, &dirs)).unwrap();
     }
     // `(require "m0.scm")` in a program without a path is resolved against the current directory
     // (ModuleBuilder::main: `std::env::current_dir()`), inside a module against the module's directory.
@@ -241,7 +349,7 @@ fn run_case(c: &Case, root: &PathBuf, out: &mut Vec<String>) {
 
     out.push(format!("case {}", c.id));
     for (i, r) in c.reqs.iter().enumerate() {
-        let text = request_text(i, r);
+        let text = request_text(i, r, &dirs);
         std::fs::write(dir.join(format!("request{i}.scm")), &text).ok();
         let status = match engine.compile_and_run_raw_program(text) {
             Ok(_) => "ok".to_string(),
@@ -316,7 +424,7 @@ fn run_case(c: &Case, root: &PathBuf, out: &mut Vec<String>) {
             match engine.extract_value(&key) {
                 Ok(v) => {
                     let shown = format!("{v}");
-                    if !is_fn(d) && canon(&shown) != format!("m{k}.{d}") {
+                    if !is_fn(d) && hof_arity(d).is_none() && canon(&shown) != format!("m{k}.{d}") {
                         bad.push(format!("m{k}.{d}:holds:{}", canon(&shown)));
                     }
                 }
@@ -374,6 +482,7 @@ fn main() {
                 r = Request { mode: "ok".into(), ..Default::default() };
                 ctx = 2;
             }
+            (["dir", d], 1) => m.dir = d.trim_matches('/').to_string(),
             (["def", n], 1) => m.defs.push(n.to_string()),
             (["prov", n], 1) => m.provs.push((n.to_string(), false)),
             (["cprov", n], 1) => m.provs.push((n.to_string(), true)),
